@@ -113,7 +113,7 @@ func benignControls(e *Env, prop string, spec *Spec) {
 						sub.Unknown("core", "checker-panic", "", fmt.Sprint(x))
 					}
 				}()
-				spec.Run(NewEnvFor(sub, tmp, "linux", "amd64"))
+				RunSpec(NewEnvFor(sub, tmp, "linux", "amd64"), prop, spec)
 			}()
 			nRun++
 			name := filepath.Base(filepath.Dir(patch)) + "/" + filepath.Base(patch)
@@ -202,7 +202,7 @@ func controls(e *Env, prop string, spec *Spec) {
 						sub.Unknown("core", "checker-panic", "", fmt.Sprint(x))
 					}
 				}()
-				spec.Run(NewEnvFor(sub, tmp, "linux", "amd64"))
+				RunSpec(NewEnvFor(sub, tmp, "linux", "amd64"), prop, spec)
 			}()
 			nRun++
 			failed, first := sub.Failed()
